@@ -48,6 +48,12 @@ pub struct Sim {
     /// When set, depfiles are written with this raw text instead of the
     /// generated one (malformed depfile scenarios), by first output.
     pub raw_depfile: BTreeMap<String, String>,
+    /// Declared outputs that the command never produces.
+    pub skip_outputs: Vec<String>,
+    /// Files (by first output of the step) a command rewrites in place while
+    /// it runs, besides its outputs (e.g. a cache it also reports as a
+    /// dependency).
+    pub side_touch: BTreeMap<String, Vec<String>>,
 }
 
 #[derive(Debug, Clone)]
@@ -69,6 +75,8 @@ impl Sim {
             prints: BTreeMap::new(),
             ran: Vec::new(),
             raw_depfile: BTreeMap::new(),
+            skip_outputs: Vec::new(),
+            side_touch: BTreeMap::new(),
         }
     }
 
@@ -99,11 +107,17 @@ impl Sim {
     }
 
     pub fn write_manifest(&mut self, name: &str) {
-        let text = self.project().manifest_text();
-        let t = self.model.tick();
-        exec::write_file(name, text.as_bytes(), t);
-        let tag = vcore::refbuild::tag_hash(&[&text], &[]);
-        self.model.files.insert(name.to_string(), FileInfo { mtime: t, tag });
+        let mut files = vec![name.to_string()];
+        if let Some((frag, _)) = &self.project().fragment {
+            files.push(frag.clone());
+        }
+        for f in files {
+            let text = self.project().text_of_file(&f);
+            let t = self.model.tick();
+            exec::write_file(&f, text.as_bytes(), t);
+            let tag = vcore::refbuild::tag_hash(&[&text], &[]);
+            self.model.files.insert(f, FileInfo { mtime: t, tag });
+        }
     }
 
     /// Creates every source file of the current project that does not exist.
@@ -133,11 +147,21 @@ impl Sim {
             .map(|r| r.iter().map(|x| vcore::refbuild::canon(x)).filter(|f| self.model.exists(f)).collect())
             .unwrap_or_default();
         let restat = self.restat_like.contains(&key);
+        if let Some(files) = self.side_touch.get(&key).cloned() {
+            for f in files {
+                if self.model.exists(&f) {
+                    self.touch_mtime(&f);
+                }
+            }
+        }
         for out in s.all_outs() {
             if let Some(gen) = self.generators.get(&key) {
                 if *out == gen.manifest_name {
                     continue; // written below
                 }
+            }
+            if self.skip_outputs.contains(out) {
+                continue;
             }
             let tag = self.model.output_tag(&s, out, &reads);
             if restat {
@@ -152,7 +176,7 @@ impl Sim {
             self.model.files.insert(out.clone(), FileInfo { mtime: t, tag });
         }
         if let Some(gen) = self.generators.get(&key).cloned() {
-            let text = gen.next.manifest_text();
+            let text = gen.next.text_of_file(&gen.manifest_name);
             let t = self.model.tick();
             exec::write_file(&gen.manifest_name, text.as_bytes(), t);
             let tag = vcore::refbuild::tag_hash(&[&text], &[]);
@@ -230,8 +254,13 @@ impl CommandModel for Sim {
                     std::fs::write(df, text).expect("write depfile");
                 }
                 if s.msvc {
+                    // Delivered in small pieces, as a pipe may split anywhere.
+                    let mut all = Vec::new();
                     for d in reported.as_deref().unwrap_or(&[]) {
-                        output(format!("Note: including file: {}\n", d).as_bytes());
+                        all.extend_from_slice(format!("Note: including file: {}\n", d).as_bytes());
+                    }
+                    for chunk in all.chunks(5) {
+                        output(chunk);
                     }
                 }
                 if depfile_ok {
